@@ -148,7 +148,7 @@ Qed.
 Lemma respond_own i r bl tl c :
   (bl = false -> served_tail i r tl) -> bounded i r (fst (fst (respond i r bl tl c))).
 Proof.
-  intros Hs. unfold respond. destruct c as [|k| | | | |a].
+  intros Hs. unfold respond. destruct c as [|k| | | | |a|k1].
   - pose proof (to_end_own i r bl tl None Hs). destruct (to_end i r bl tl None) as [[d err] it]; exact H.
   - destruct (bl || Nat.leb (k_n r) k && negb (match k_framing r with FEof => true | _ => false end)) eqn:Hc.
     + pose proof (to_end_own i r bl tl None Hs). destruct (to_end i r bl tl None) as [[d err] it]; exact H.
@@ -172,6 +172,14 @@ Proof.
   - apply nil_bounded.
   - pose proof (to_end_own i r bl tl (Some (Nat.max a 1)) Hs).
     destruct (to_end i r bl tl (Some (Nat.max a 1))) as [[d err] it]; exact H.
+  - destruct bl; [apply nil_bounded|]. destruct (Hs eq_refl) as (rest & -> & Hfs & Hsn & Heof).
+    destruct (Nat.ltb_spec 0 (k_first r)) as [Hpos|Hz]; cbn [fst].
+    + split; [constructor; [reflexivity|constructor]|cbn [total]; lia].
+    + assert (Hf0 : k_first r = 0) by lia. unfold cont. rewrite Hf0.
+      destruct (k_n r) as [|n'] eqn:Hn; [apply nil_bounded|].
+      destruct (Nat.ltb_spec 0 (k_sent r)) as [Hs1|Hs0]; cbn [app fst].
+      * split; [constructor; [reflexivity|constructor]|cbn [total]; lia].
+      * assert (He : eof_first rest) by (apply Heof; left; lia). destruct He as [rest' ->]. cbn [fst]. apply nil_bounded.
 Qed.
 
 (* ---------- what the server writes ---------- *)
